@@ -1,7 +1,7 @@
 SPECIFICATION Spec
 CONSTANTS
   Corpus <- TestCorpus
-  Devs = {}
+  Devs = {"DevCompileInPlace"}
   Codecs = {"ber", "uper"}
   MaxLen = 4
   EmitFrom = 99
